@@ -652,6 +652,17 @@ func (env *Environment) handleHooks(workflow workflow.Role, trigger string, weig
 	for k := range callsMapForAwait {
 		allWeightsSet[k] = callable.Hooks{}
 	}
+	// A call started at this trigger may declare an await point at a later weight of the same trigger:
+	// that weight must be visited too, otherwise the call is never collected here.
+	for _, hooksForWeight := range hooksMapForTrigger {
+		for _, call := range hooksForWeight.FilterCalls() {
+			if awaitName, awaitWeight := callable.ParseTriggerExpression(call.GetTraits().Await); awaitName == trigger {
+				if _, ok := allWeightsSet[awaitWeight]; !ok {
+					allWeightsSet[awaitWeight] = callable.Hooks{}
+				}
+			}
+		}
+	}
 	allWeights := allWeightsSet.GetWeights()
 
 	filteredWeights := make([]callable.HookWeight, 0)
